@@ -39,6 +39,13 @@ for st in MM_UNITS:
 for st in ('orig_grid_style', 'freelist_style'):
     mm_job(st, 2, 3, 8, 0, 'thorough', 5400)
     mm_job(st, 8, 3, 8, 0, 'thorough', 5400)
+for st in ('orig_grid_style', 'array_grid_style', 'heap_style'):
+    for (s1, s2, s3) in ((4, 14, 20), (6, 10, 30), (4, 20, 40)):
+        J('C18', 'c18_growth_%s_%d_%d_%d' % (st.replace('_style', ''), s1, s2, s3), 'c18_mm.cc', 'c18_growth', units=[MM_UNITS[st], 'memory.cc', 'memstats.cc', 'error.cc'],
+          defines={'STYLE': st, 'GRAN': 4, 'K': 0, 'S': 20, 'PRE': 0, 'MINSZ': 4, 'S1': s1, 'S2': s2, 'S3': s3}, gxx_units=['io.cc', 'memory_managers/malloc_style.cc'],
+          unit_defines={'MEDDLY_VERIF_ARENA': 16}, unwind=8, unwind_re={r'^__ll2c_realloc': 70, r'^__ll2c_mem': 70}, realloc_copy_max=280, timeout=2400,
+          tier='quick' if (s1, s2, s3) == (4, 14, 20) else 'thorough', covers=[1],
+          desc='%s: arena growth - initial arena 16 slots (hook H1), requests of %d, %d, %d slots so that the backing array is reallocated; chunks stay addressable (CBMC bounds checks) and keep their symbolic contents' % (st, s1, s2, s3))
 for g in (4, 8):
     J('C18', 'c18_malloc_g%d' % g, 'c18_mm.cc', 'c18_malloc', units=['memory_managers/malloc_style.cc', 'memory.cc', 'memstats.cc', 'error.cc'],
       defines={'GRAN': g, 'S': 8, 'MINSZ': 1, 'MALLOC_ONLY': 1}, gxx_units=['io.cc'], unwind=3, covers=[1], timeout=600,
@@ -96,7 +103,7 @@ for kind in (0, 1):
                   units=['unpacked_node.cc', 'memory_managers/orig_grid.cc', 'memory.cc', 'memstats.cc', 'error.cc', 'node_storage.cc', 'edge_value.cc'],
                   unit_defines={'MEDDLY_VERIF_ARENA': 48, 'MEDDLY_VERIF_HASHLOG': 1}, arena=('uint32_t', 48), defines={'KIND': kind, 'PAT': pat, 'OPT': opt},
                   gxx_units=['ALL'], gxx_exclude=['storage/simple.cc'], unwind=6 if root == 'c01_codec' else 14, timeout=1800,
-                  tier='quick' if (kind == 0 and ((root == 'c01_hash' and pat in (5, 7)) or (root == 'c01_codec' and pat in (2, 5, 7)))) else 'thorough',
+                  tier='quick' if (kind == 0 and ((root == 'c01_hash' and pat in (5, 7)) or (root == 'c01_codec' and pat in (2, 4, 5, 7)))) else 'thorough',
                   desc='%s node of a level of size 3, shape %s (1 = non-transparent child), children%s symbolic; storage option %s%s' % (
                       'MT' if kind == 0 else 'EV+ (long, hashed edge values)', format(pat, '03b')[::-1], '' if kind == 0 else ' and edge values',
                       ['FULL_ONLY', 'SPARSE_ONLY', 'FULL_OR_SPARSE'][opt], '; second symbolic node of any shape for the duplicate test' if root == 'c01_codec' else ''))
@@ -117,12 +124,7 @@ for k, nm in enumerate(C05_EVP):
 # ---------------------------------------------------------------- C16 (L1: error paths)
 J('C16', 'c16_checks', 'c16_checks.cc', 'c16_checks', units=['error.cc'], unwind=3, timeout=600, gxx_units=['ALL'], covers=[1, 2, 3],
   desc='binary_operation::check{Domains,AllRelations,Relations,AllLabelings,Labelings,AllRanges,AllEdgeTypes} on three forest records with symbolic attributes (2 domains x set/relation x 3 range types x 4 labelings x 5 edge types each)')
-# the error paths of the scalar kernels (DIVIDE_BY_ZERO, VALUE_OVERFLOW, SUBTRACT_INFINITY, INFINITY_DIV_INFINITY) and of the terminal codec
 import copy as _copy
-for _j in list(JOBS):
-    if _j.name in ('c05_mt_long_div', 'c05_mt_long_mod', 'c05_mt_real_div', 'c05_mt_long_plus', 'c05_mt_long_mult', 'c05_evplus_minus', 'c05_evplus_div', 'c05_evplus_mod',
-                   'c19_int_roundtrip', 'c19_bool'):
-        _k = _copy.copy(_j); _k.prop = 'C16'; _k.name = 'c16_' + _j.name; JOBS.append(_k)
 for root, cov in (('c19_edge_mt', [1, 2, 3, 4]), ('c19_edge_ev', [1, 2, 3])):
     J('C19', root, 'c19_edges.cc', root, units=['forest.cc', 'policies.cc', 'error.cc', 'edge_value.cc'], unwind=3, timeout=900, gxx_units=['ALL'], covers=cov,
       desc='forest::getEdgeForValue / getValueForEdge (real forest.cc) on forest records of every labeling; value symbolic at full width (64-bit integers, all non-NaN floats, +infinity)')
@@ -133,7 +135,8 @@ for _j in list(JOBS):
         _k = _copy.copy(_j); _k.prop = 'C02'; _k.name = 'c02_' + _j.name[4:]
         if _j.name.startswith('c01_hash_'): _k.tier = 'thorough' if not (_j.tier == 'quick' and '_p7_' in _j.name) else 'quick'
         JOBS.append(_k)
-JOBS[:] = [j for j in JOBS if not (j.prop == 'C01' and j.name.startswith('c01_codec_') and j.tier == 'quick' and '_p2_' in j.name)]
+for j in JOBS:
+    if j.prop == 'C01' and j.name.startswith('c01_codec_') and j.tier == 'quick' and ('_p2_' in j.name or '_p4_' in j.name): j.tier = 'thorough'
 
 # ---------------------------------------------------------------- C12 (component level: storage x memory manager)
 MM_HDR = {'orig_grid_style': 'memory_managers/orig_grid.cc', 'array_grid_style': 'memory_managers/array_grid.cc', 'heap_style': 'memory_managers/heap_manager.cc', 'freelist_style': 'memory_managers/freelists.cc'}
@@ -158,3 +161,25 @@ for k, nm in enumerate(C05_CMP):
         J('C05', '%s_%s' % (root, nm), 'c05_compare.cc', root, units=['error.cc', 'edge_value.cc'], defines={'CMP': k}, unwind=3, timeout=900, gxx_units=['ALL'],
           gxx_exclude=['operations/compare.cc'], covers=cov,
           desc='comparison policy %s from operations/compare.cc, both operands symbolic at full width (terminal handles / extended integers / non-NaN floats)' % nm)
+
+# the error paths of the scalar kernels (DIVIDE_BY_ZERO, VALUE_OVERFLOW, SUBTRACT_INFINITY, INFINITY_DIV_INFINITY) and of the terminal codec
+import copy as _copy
+for _j in list(JOBS):
+    if _j.name in ('c05_mt_long_div', 'c05_mt_long_mod', 'c05_mt_real_div', 'c05_mt_long_plus', 'c05_mt_long_mult', 'c05_evplus_minus', 'c05_evplus_div', 'c05_evplus_mod',
+                   'c19_int_roundtrip', 'c19_bool', 'c19_edge_mt', 'c19_edge_ev', 'c10_copy_evplus'):
+        _k = _copy.copy(_j); _k.prop = 'C16'; _k.name = 'c16_' + _j.name; JOBS.append(_k)
+for k, nm in ((0, 'plus'), (1, 'minus'), (2, 'mult'), (3, 'div'), (5, 'max'), (6, 'min')):
+    JOBS.insert(0, Job('C05', 'c05_evstar_' + nm, 'c05_evstar.cc', 'c05_evstar', units=['error.cc', 'edge_value.cc'], defines={'OP': k}, unwind=3, timeout=900, gxx_units=['ALL'],
+      backend=('z3' if nm in ('mult', 'div') else 'sat'), gxx_exclude=['operations/arith_%s.cc' % nm], covers=[2],
+      desc='EV* policy evstar_%s<float>: both operands any finite float (zero as the omega-zero edge)' % nm))
+J('PROBE', 'probe_g', 'probe_g.cc', 'probe_g', units=['ALL'], unit_defines={'MEDDLY_VERIF_NH_START': 8, 'MEDDLY_VERIF_ARENA': 64}, arena=('uint32_t', 64), unwind=20, timeout=3000, mem_gb=24, tv=0, object_bits=12, tier='probe')
+
+# ---------------------------------------------------------------- real-forest harnesses (fixture_forest.h)
+REAL_DEFS = {'MEDDLY_VERIF_NH_START': 8, 'MEDDLY_VERIF_ARENA': 64}
+for rule in (0, 1):
+    J('C01', 'c01_reduce_r%d' % rule, 'c01_reduce.cc', 'c01_reduce', units=['ALL'], unit_defines=REAL_DEFS, defines={'RULE': rule, 'FKIND': 0},
+      unwind=4, unwind_re={r'^__ll2c_mem': 10}, timeout=3000, mem_gb=20, object_bits=12, tv=0, tier='exp',
+      desc='real MT-integer set forest (%s reduced), 2 variables of size 2: a symbolic 2x2 table of terminal values in {-1,0,1,2} built bottom-up by createReducedNode along two paths (full / sparse unpacked nodes, different order) plus a second symbolic table; audit of all reachable nodes' % ('fully' if rule == 0 else 'quasi'))
+J('C01', 'c01_evnorm', 'c01_evnorm.cc', 'c01_evnorm', units=['ALL'], unit_defines=REAL_DEFS, defines={'RULE': 0, 'FKIND': 3},
+  unwind=4, unwind_re={r'^__ll2c_mem': 10}, timeout=3000, mem_gb=20, object_bits=12, tv=0, tier='exp', covers=[1, 2],
+  desc='real EV+ (long) set forest, 2 variables of size 2: createReducedNode with concrete node structure and symbolic 64-bit edge values (|v| < 2^40): normalisation to a canonical representative at level 1 and level 2')
